@@ -130,8 +130,9 @@ pub fn canon(src: &str, res: &LexResult, opts: CanonOpts) -> Vec<u8> {
     let mut n = 0u32;
     for (_, ti) in &infos {
         if opts.strip_macro_sep && ti.token_type() == TokenType::MacroSep {
-            // an error naming a MacroSep maps to the previous kept token
-            map.push(n.wrapping_sub(1));
+            // no error may name a MacroSep as its last token (the keyword / label token follows
+            // it immediately): such an index has no counterpart in the plain build
+            map.push(u32::MAX - 2);
         } else {
             map.push(n);
             n += 1;
